@@ -16,6 +16,7 @@ class Reader:
         self.appends = {}                 # name -> [(conds, desc, line)]
         self.special = special or (lambda node, rd: None)
         self.skips = []                   # (conds, predicate descriptor, line) for `if <empty>: continue`
+        self.breaks = []                  # the same for `if ..: break`
 
     # ---------------------------------------------------------------- descriptors
     def desc(self, n):
@@ -210,6 +211,9 @@ class Reader:
             # `if <emptiness test>: continue` records a skip
             if len(s.body) == 1 and isinstance(s.body[0], ast.Continue) and not s.orelse:
                 self.skips.append((conds, self.desc_test(s.test), s.lineno))
+                return
+            if len(s.body) == 1 and isinstance(s.body[0], ast.Break) and not s.orelse:
+                self.breaks.append((conds, self.desc_test(s.test), s.lineno))      # ends the loop: every later cell is dropped
                 return
             self.run(s.body, conds + (("if", c),))
             self.run(s.orelse, conds + (("ifnot", c),))
